@@ -3,18 +3,26 @@ import json
 
 from harness.core import Violation, hx, unhx, excname
 from harness import wsgi_common as W
+from harness import json_common as JC
 
 LEAN_TARGETS = ["PoorProofs.Props.C05"]
 AUDIT_IMPORTS = ["PoorProofs.Props.C05"]
-LEAN_FILES = ["PoorModel/Response.lean", "PoorProofs/Props/C05.lean"]
+LEAN_FILES = ["PoorModel/Response.lean", "PoorModel/Json.lean", "PoorProofs/Props/C05.lean", "PoorProofs/Props/JsonCodec.lean",
+              "PoorProofs/Lemmas/Json.lean"]
 THEOREMS = ["Poor.Props.C05.C05_headers", "Poor.Props.C05.C05_str_bytes", "Poor.Props.C05.C05_json",
             "Poor.Props.C05.C05_none", "Poor.Props.C05.C05_iter", "Poor.Props.C05.C05_junk",
-            "Poor.Props.C05.C05_tuple", "Poor.Props.C05.C05_resp", "Poor.Props.C05.C05"]
+            "Poor.Props.C05.C05_tuple", "Poor.Props.C05.C05_resp", "Poor.Props.C05.C05", "Poor.Props.C05.C05_json_value",
+            "Poor.Props.JsonCodec.loadBytes_dumpBytes", "Poor.Props.JsonCodec.dumpBytes_ascii",
+            "Poor.Props.JsonCodec.surrogate_pair_merged", "Poor.Json.roundtrip_value", "Poor.Json.scanStr_tail",
+            "Poor.Json.pNumber_dumpInt"]
 TRUSTED_BASE = ["model Poor.Response hand-written from wsgi.py:47-54, response.py:74-104,251-330,341-373,644-654,811-919",
-                "JSON text = json.dumps(value) computed by the harness; json.loads(json.dumps(v)) == v is assumed and sampled",
+                "JSON: Poor.Json.dump / loads model CPython's json.dumps (default arguments) and json.loads (C scanner), tied by "
+                "the `jd` lines here and the `jl` lines of C10; floats are not modelled (placeholder), int() refuses more than "
+                "4300 digits, recursion depth is unbounded in the model",
                 "a response object handed back by user code is modelled by its state at hand-back "
                 "(status, headers, content_type, body chunks, content_length)"]
-ASSUMPTIONS = ["CPython json round trip for JSON-serialisable values", "response objects are used once"]
+ASSUMPTIONS = ["JSON values without floats; strings without a high surrogate directly followed by a low one (CPython joins them)",
+               "response objects are used once"]
 RULE = ("return values: Unicode str / bytes / nested JSON incl. {} and [] / lists of bytes / lazy iterables / None / "
         "tuples of length 1-5 with every header collection kind and statuses from the whole reason table / every "
         "response class with extra headers incl. repeated Set-Cookie; through to_response+emission and through a real "
@@ -78,6 +86,14 @@ def generate(rng, tier):
     p = W.pool()
     vals = p["plain"] + p["junk"] + p["tuples"] + p["resps"] + extra_factories(rng, 3000 if tier == "thorough" else 500)
     cases = ["C05 val " + f.tok for f in vals]
+    # the JSON codec: values of every shape, tied to the Lean model of json.dumps (Poor.Json.dump)
+    seen = set()
+    for i in range(3000 if tier == "thorough" else 500):
+        v = JC.rand_value(rng, 3, rng.choice(["dict", "list", None]))
+        tok = JC.canon(v)
+        if tok not in seen and len(tok) < 4000:
+            seen.add(tok)
+            cases.append("C05 jd " + tok)
     for f in rng.sample(vals, min(len(vals), 400 if tier == "thorough" else 120)):      # through a real request
         cases.append(W.mk_case("C05", "hit", "ok", 0, 0, [], [], False, {"e": W.beh_ret(f)}))
     return cases
@@ -86,7 +102,21 @@ def generate(rng, tier):
 def to_model(case):
     if case.split()[1] == "val":
         return [case]
+    if case.split()[1] == "jd":
+        return ["JS dump " + case.split()[2]]
     return W.to_model("C01 " + case.split(" ", 1)[1])
+
+
+def emit_json(tok):
+    """the body the client receives for the JSON value `tok` (through to_response for dicts and lists, the way a
+    handler's return value goes; through JSONResponse for scalars)"""
+    import poorwsgi.wsgi as w
+    from poorwsgi.response import JSONResponse
+    value = JC.from_canon(tok)
+    res = w.to_response(value) if isinstance(value, (dict, list)) else JSONResponse(value)
+    calls = []
+    chunks = list(res(lambda s, h: calls.append((s, h))))
+    return value, calls, b"".join(chunks)
 
 
 def emit_value(tok):
@@ -112,6 +142,8 @@ def observe(case):
     try:
         if t[1] == "val":
             return emit_value(t[2])[0]
+        if t[1] == "jd":
+            return hx(emit_json(t[2])[2])
         return W.observe(case)
     except Exception as err:
         return excname(err)
@@ -141,6 +173,21 @@ def expect(value):
 
 def oracle(case):
     t = case.split()
+    if t[1] == "jd":
+        # a dict or list is delivered as JSON that decodes to an equal value, under a JSON content type
+        value, calls, body = emit_json(t[2])
+        if any(JC.adjacent_pair(s) for s in JC.strings_of(value)):
+            return []       # CPython's own json.loads(json.dumps(s)) != s for a high surrogate followed by a low one
+        hd = {k.lower(): v for k, v in calls[0][1]}
+        try:
+            back = json.loads(body.decode("utf-8"))
+        except Exception as err:
+            return [Violation("c05:json", case, "the body %r is not JSON in UTF-8: %r" % (body[:60], err))]
+        if back != value or type(back) is not type(value):
+            return [Violation("c05:json", case, "the body decodes to %r, the handler returned %r" % (back, value))]
+        if not hd.get("content-type", "").startswith("application/json") or hd.get("content-length") != str(len(body)):
+            return [Violation("c05:json", case, "headers %r for a JSON body of %d bytes" % (calls[0][1], len(body)))]
+        return []
     if t[1] != "val":
         return []
     f = W._factories[t[2]]
